@@ -14,6 +14,8 @@ import (
 	"io"
 	"runtime"
 	"strings"
+	"sync/atomic"
+	"time"
 
 	"github.com/google/mtail/internal/logline"
 	"github.com/google/mtail/internal/tailer/logstream"
@@ -141,7 +143,13 @@ func main() {
 	for n := 0; n <= maxLen; n++ {
 		gen(nil, n)
 	}
+	deadline := c.Deadline(5*time.Minute, 30*time.Minute)
+	var skipped int64
 	vlib.Parallel(len(streams), runtime.NumCPU(), func(si int) {
+		if time.Now().After(deadline) {
+			atomic.AddInt64(&skipped, 1)
+			return
+		}
 		stream := streams[si]
 		want := expected(stream)
 		n := len(stream)
@@ -166,7 +174,7 @@ func main() {
 				sizes = append(sizes, cur)
 			}
 			variants := [][]int{sizes}
-			if zeroReads {
+			if zeroReads && n <= 6 {
 				for p := 0; p <= len(sizes); p++ {
 					v := append(append(append([]int{}, sizes[:p]...), 0), sizes[p:]...)
 					variants = append(variants, v)
@@ -203,9 +211,12 @@ func main() {
 			c.Sample(map[string]interface{}{"stream": fmt.Sprintf("%q", stream), "expected_lines": want, "chunkings": ncomp, "bufsizes": bufs})
 		}
 	})
+	if skipped > 0 {
+		c.CapHit(fmt.Sprintf("deadline: %d of the %d streams (the longest ones, enumerated last) were not run", skipped, len(streams)))
+	}
 	c.Set("streams", len(streams))
 	c.Set("max_stream_len", maxLen)
 	c.Set("alphabet", strings.Join([]string{`\n`, `\r`, `a`, `0xC3`, `0xA9`}, " "))
 	c.Assume = []string{"the LineReader is driven single-threaded with a buffered output channel; concurrency of the consumer is covered by C16/C19", "time.AfterFunc(24h) stale timers never fire during the run"}
-	c.Finish("all byte strings up to max_stream_len over the alphabet × all compositions into read sizes (thorough: plus one zero-length read at every position) × bufsizes {1,2,3,4,8} × EOF separate/with last chunk; distinct_nontrivial = distinct streams of length>=2 containing a newline")
+	c.Finish("all byte strings up to max_stream_len over the alphabet × all compositions into read sizes (thorough: plus one zero-length read at every position, for streams of length <= 6) × bufsizes {1,2,3,4,8} × EOF separate/with last chunk; distinct_nontrivial = distinct streams of length>=2 containing a newline")
 }
